@@ -3126,6 +3126,7 @@ impl PeerConnection {
 
     pub async fn wait_for_connected(&self) -> RtcResult<()> {
         let mut peer_state_rx = self.subscribe_peer_state();
+        let mut reason_rx = self.subscribe_disconnect_reason();
         loop {
             let state = *peer_state_rx.borrow_and_update();
             if state == PeerConnectionState::Connected {
@@ -3137,8 +3138,27 @@ impl PeerConnection {
                     state
                 )));
             }
-            if peer_state_rx.changed().await.is_err() {
-                return Err(RtcError::Internal("Peer state channel closed".into()));
+            // `Disconnected` without a disconnect reason is transient ICE loss (keep waiting);
+            // with a reason the peer / a lower layer ended the connection: do not hang.
+            if state == PeerConnectionState::Disconnected
+                && let Some(reason) = reason_rx.borrow_and_update().clone()
+            {
+                return Err(RtcError::Internal(format!(
+                    "Peer connection disconnected: {}",
+                    reason
+                )));
+            }
+            tokio::select! {
+                res = peer_state_rx.changed() => {
+                    if res.is_err() {
+                        return Err(RtcError::Internal("Peer state channel closed".into()));
+                    }
+                }
+                res = reason_rx.changed() => {
+                    if res.is_err() {
+                        return Err(RtcError::Internal("Peer state channel closed".into()));
+                    }
+                }
             }
         }
     }
